@@ -339,6 +339,8 @@ def real_cases(tier):
     cs.append({"kind": "cat", "text": "plain ascii bytes\n", "mode": "bytes"})
     cs.append({"kind": "cat", "text": "héllo", "mode": "bytes"})          # F-C13 on the real runner
     cs.append({"kind": "respond"})
+    cs.append({"kind": "bom"})                           # BOM encodings: the BOM must appear once (F-C13c)
+    cs.append({"kind": "tty-multibyte"})                 # a 2-byte character typed at a real terminal (F-C13d)
     cs.append({"kind": "pipe-eof", "buffered": False})   # `echo hi | ...` shape: data then EOF on a real pipe
     cs.append({"kind": "pipe-eof", "buffered": True})
     cs.append({"kind": "idle-pipe"})                     # pipe held open, nothing fed, command exits at once
@@ -366,6 +368,24 @@ def real_case(c):
         kw["in_stream"] = False
         kw["watchers"] = [Responder(pattern=r"Q\?", response="yes\n")]
         cmd = [sys.executable, "-u", "-c", "print('Q?'); x=input(); print('got', x)"]
+    elif kind == "bom":
+        import tempfile
+        fd, path = tempfile.mkstemp(prefix="c13-bom-", dir=core.BUILD)
+        os.close(fd)
+        r = rc.run_real("cat > %s" % path, hide=True, in_stream=io.StringIO("ab"), encoding="utf-16", bound=20)
+        got = open(path, "rb").read()
+        os.unlink(path)
+        if r["hang"] or r["outcome"] != "Result":
+            return {"case": c, "what": "outcome %s" % r["outcome"]}
+        if got == "ab".encode("utf-16"):
+            return None
+        if got == "a".encode("utf-16") + "b".encode("utf-16"):
+            return {"case": c, "finding": "F-C13c",
+                    "what": "in_stream=StringIO('ab'), encoding='utf-16': the child received %s (a BOM per read)"
+                            % got.hex(" ")}
+        return {"case": c, "what": {"got": got.hex(" "), "want": "ab".encode("utf-16").hex(" ")}}
+    elif kind == "tty-multibyte":
+        return tty_multibyte_case(c)
     elif kind == "pipe-eof":
         rfd, wfd = os.pipe()
         os.write(wfd, b"hi\n")
@@ -456,6 +476,74 @@ def real_case(c):
         return None if out == "abc" else {"case": case, "what": {"want": "abc", "got": out}}
     if kind == "pty-head":
         return None if out.count("abc") >= 1 and r["exited"] == 0 else {"case": case, "what": {"got": out}}
+
+
+TTY_HELPER = r"""
+import sys
+sys.path.insert(0, %r)
+from invoke import Context
+Context().run("cat > %s", hide=True, echo_stdin=False, encoding="utf-8")
+"""
+
+
+def tty_multibyte_case(c):
+    """helper interpreter under pty.fork (its sys.stdin is a real terminal); the harness types a 2-byte
+    character: it must reach the command without waiting for the next key press"""
+    import pty
+    import select
+    import tempfile
+    import time
+    fd, path = tempfile.mkstemp(prefix="c13-tty-", dir=core.BUILD)
+    os.close(fd)
+    pid, master = pty.fork()
+    if pid == 0:
+        try:
+            os.execv(sys.executable, [sys.executable, "-c", TTY_HELPER % (core.REPO, path)])
+        finally:
+            os._exit(97)
+
+    def pump(sec):
+        end = time.time() + sec
+        while time.time() < end:
+            r, _, _ = select.select([master], [], [], 0.05)
+            if r:
+                try:
+                    os.read(master, 4096)
+                except OSError:
+                    return
+    try:
+        # wait until the helper has switched the terminal to cbreak (ICANON off), at most 15 s
+        import termios
+        t0 = time.time()
+        while time.time() - t0 < 15:
+            pump(0.1)
+            try:
+                if not (termios.tcgetattr(master)[3] & termios.ICANON):
+                    break
+            except termios.error:
+                break
+        pump(0.3)
+        os.write(master, "\u00e9".encode())
+        pump(2.0)
+        first = open(path, "rb").read()
+        os.write(master, b"x")
+        pump(1.5)
+        second = open(path, "rb").read()
+    finally:
+        try:
+            os.kill(pid, 9)
+            os.waitpid(pid, 0)
+        except OSError:
+            pass
+        os.close(master)
+        os.unlink(path)
+    if first == "\u00e9".encode():
+        return None
+    if first == b"" and second == "\u00e9x".encode():
+        return {"case": c, "finding": "F-C13d",
+                "what": "2 s after a 2-byte character was typed the command had received nothing; it arrived "
+                        "together with the next key press"}
+    return {"case": c, "what": {"after_char": first.hex(" "), "after_next_key": second.hex(" ")}}
 
 
 PROP = C13()
